@@ -109,7 +109,7 @@ struct C08 : Property
 		static const int thresholds[] = {0, 1, 9, 10, 11, 12, 20, 21, 22, 31, 32, 33, 42, 43, 64};
 		static const int serflags[] = {0, 1, 2, 3, 2 | 8, 16, 1 | 2 | 32, 4};
 		int n = thresholds[r.below(sizeof thresholds / sizeof *thresholds)];
-		switch (r.below(18))
+		switch (r.below(19))
 		{
 		case 0: // parse
 		case 1:
@@ -206,8 +206,14 @@ struct C08 : Property
 			    "[{\"op\":\"add\",\"path\":\"/k1\",\"value\":1},{\"op\":\"add\",\"path\":\"/k2\",\"value\":2},{\"op\":\"add\",\"path\":\"/k3\",\"value\":3},{\"op\":\"remove\",\"path\":\"/k2\"}]",
 			    "[{\"op\":\"copy\",\"from\":\"/o/y\",\"path\":\"/foo/9\"}]",
 			    "[{\"op\":\"move\",\"from\":\"/o/y\",\"path\":\"/n/z\"}]",
-			    "[{\"op\":\"copy\",\"from\":\"/foo\",\"path\":\"/o/y/z/1\"},{\"op\":\"move\",\"from\":\"/n\",\"path\":\"/o/m\"}]"};
-			p.ops.push_back(mk("s_doc", {}, std::string(patches[r.below(13)]) + std::string(1, '\0')));
+			    "[{\"op\":\"copy\",\"from\":\"/foo\",\"path\":\"/o/y/z/1\"},{\"op\":\"move\",\"from\":\"/n\",\"path\":\"/o/m\"}]",
+			    // refused operations: replace / remove / test of something that does not exist
+			    "[{\"op\":\"replace\",\"path\":\"/b\",\"value\":2}]",
+			    "[{\"op\":\"replace\",\"path\":\"/o/nope\",\"value\":[1,2]}]",
+			    "[{\"op\":\"replace\",\"path\":\"/foo/2\",\"value\":40}]",
+			    "[{\"op\":\"remove\",\"path\":\"/o/nope\"},{\"op\":\"add\",\"path\":\"/z\",\"value\":1}]",
+			    "[{\"op\":\"test\",\"path\":\"/o/nope\",\"value\":1}]"};
+			p.ops.push_back(mk("s_doc", {}, std::string(patches[r.below(18)]) + std::string(1, '\0')));
 			p.ops.push_back(mk("t_patch", {0, 1, (int64_t)r.below(2)}));
 			break;
 		}
@@ -220,6 +226,10 @@ struct C08 : Property
 			break;
 		}
 		case 14: p.ops.push_back(mk("t_toknew", {(int64_t)r.pick(std::vector<int>{1, 2, 32, 100})})); break;
+		case 18: // serialization delivered to a descriptor
+			p.ops.push_back(mk("s_doc", {}, (r.chance(1, 2) ? container_doc(r, r.chance(1, 2), n) : valid_doc(r, (int)r.range(5, 160), 4)) + std::string(1, '\0')));
+			p.ops.push_back(mk("t_tofd", {0, serflags[r.below(8)], (int64_t)r.below(3)}));
+			break;
 		case 16: // the hash table entry points directly
 			p.ops.push_back(mk("t_lh", {(int64_t)r.pick(std::vector<int>{1, 2, 3, 8, 16}), (int64_t)r.range(1, 30), (int64_t)r.below(1000)}));
 			break;
@@ -230,6 +240,7 @@ struct C08 : Property
 			if (r.chance(1, 2))
 				p.ops.push_back(mk("s_fmt", {(int64_t)r.below(2)}, "%.3f"));
 			p.ops.push_back(mk("s_doc", {}, std::string("[1.5,2.25,{\"d\":0.1}]") + std::string(1, '\0')));
+			p.ops.push_back(mk("s_dbl", {(int64_t)r.below(1000)}));
 			p.ops.push_back(mk("t_fmt", {(int64_t)r.below(2), (int64_t)r.below(2)}, r.chance(1, 3) ? "" : "%.2f"));
 			break;
 		}
@@ -347,6 +358,13 @@ struct C08 : Property
 				for (int64_t k = 0; k < op.arg(0) && k < 200; k++)
 					LIB(json_object_array_add(o, json_object_new_int64(k)));
 				slots.push_back(o);
+			}
+			else if (op.kind == "s_dbl")
+			{
+				// doubles made through the API (parsed ones replay their source text, so a double format never shows on them)
+				if (!slots.empty() && slots[0] && json_object_get_type(slots[0]) == json_type_array)
+					for (int64_t k = 0; k < 3; k++)
+						LIB(json_object_array_add(slots[0], json_object_new_double((double)(op.arg(0) % 1000 + 1) / 8.0 + (double)k)));
 			}
 			else if (op.kind == "s_str")
 				slots.push_back(LIB(json_object_new_string_len(op.data.data(), (int)op.data.size())));
@@ -788,6 +806,25 @@ struct C08 : Property
 				if (o)
 					extra.push_back(o);
 			}
+			// ---------------------------------------------------------------- to_fd / to_file_ext
+			else if (op.kind == "t_tofd" && !slots.empty() && slot(op.arg(0)))
+			{
+				int flags = (int)op.arg(1) & 63;
+				int api = (int)(op.arg(2) % 3);
+				g_fd.files.erase("/jsim/out.json");
+				int fd = api == 0 ? g_fd.open_sim("/jsim/out.json", false, true, true, true) : -1;
+				e.ran = true;
+				e.kind += api == 0 ? ":to_fd" : api == 1 ? ":to_file_ext" : ":to_file";
+				arm();
+				int rc = api == 0 ? LIB(json_object_to_fd(fd, slot(op.arg(0)), flags))
+				                  : api == 1 ? LIB(json_object_to_file_ext("/jsim/out.json", slot(op.arg(0)), flags)) : LIB(json_object_to_file("/jsim/out.json", slot(op.arg(0))));
+				disarm();
+				if (fd >= 0)
+					close(fd);
+				e.failed = rc != 0;
+				// success means: the descriptor received the whole text (a reported success with missing bytes is a wrong result)
+				e.result = "rc=" + std::to_string(rc < 0 ? -1 : rc) + (rc == 0 ? ";" + hexenc(g_fd.files.count("/jsim/out.json") ? g_fd.files["/jsim/out.json"] : std::string("<no file>")) : std::string());
+			}
 			// ---------------------------------------------------------------- tokener_new
 			else if (op.kind == "t_toknew")
 			{
@@ -973,6 +1010,7 @@ struct C08 : Property
 					int scope = (op.arg(0) & 1) ? JSON_C_OPTION_THREAD : JSON_C_OPTION_GLOBAL;
 					e.ran = true;
 					e.kind += scope == JSON_C_OPTION_THREAD ? ":thread" : ":global";
+					mutated_slot = -2; // the dump of a tree shows API-made doubles through the format in effect: trees are compared by the texts below instead
 					std::string old_text = ser(slot(0), 0);
 					fmt_touched = true;
 					arm();
